@@ -21,8 +21,8 @@ func init() {
 	Register(&Check{
 		ID:          "C18",
 		Technique:   "complete enumeration of the dial configuration matrix on the real Dialer against in-process HTTP/HTTPS CONNECT proxies, a SOCKS5 server and TLS back-ends (deterministic synchronous pipes); every peer logs what it saw",
-		Rule:        "cells = {no proxy, http, https, socks5} x {ws, wss} x {subsets of NetDial / NetDialContext / NetDialTLSContext that do not need the real network} x {proxy credentials none | user | user:password} x {backend certificate valid | other host | untrusted CA} x {URL host: name, name:port, IPv4, [::1], [::1]:port} x {proxy replies 200, 200 without reason, 407 with/without reason, 502, garbage, EOF}; complete product (irrelevant combinations collapsed). non-trivial = at least one hook dial and a non-default cell; distinct by observation hash",
-		Assumptions: []string{"cells without any dial hook use the default net.Dialer: they are enumerated on real loopback TCP listeners (family loopback); the in-memory family covers every combination of hooks", "SOCKS5 with a user name but no password is a don't-care (x/net refuses it)", "crypto/tls and x/net/proxy are trusted"},
+		Rule:        "cells = {no proxy, http, https, socks5} x {ws, wss} x {subsets of NetDial / NetDialContext / NetDialTLSContext that do not need the real network} x {proxy credentials none | user | user:password | user with a set but empty password} x {backend certificate valid | other host | untrusted CA} x {URL host: name, name:port, IPv4, [::1], [::1]:port} x {proxy replies 200, 200 without reason, 407 with/without reason, 502, garbage, EOF}; complete product (irrelevant combinations collapsed). non-trivial = at least one hook dial and a non-default cell; distinct by observation hash",
+		Assumptions: []string{"cells without any dial hook use the default net.Dialer: they are enumerated on real loopback TCP listeners (family loopback); the in-memory family covers every combination of hooks", "SOCKS5 with a user name but no (or an empty) password is a don't-care (x/net refuses it)", "crypto/tls and x/net/proxy are trusted"},
 		Budget:      map[string]time.Duration{"quick": 100 * time.Second, "thorough": 15 * time.Minute},
 		Bound:       map[string]string{"quick": "complete product", "thorough": "complete product (same cells; thorough adds nothing here)"},
 		Scenarios:   c18Scenarios,
@@ -56,7 +56,7 @@ func c18Scenarios(tier string) []*explore.Scenario {
 func c18Loopback(x *explore.Ctx, proxyScheme string, secure bool) {
 	o := backendOpts{}
 	if proxyScheme != "" {
-		o.creds = []string{"", "user", "user:pa:ss"}[x.Pick(3, "proxy-credentials")]
+		o.creds = []string{"", "user", "user:pa:ss", "user:"}[x.Pick(4, "proxy-credentials")]
 	}
 	certKind := 0
 	if secure {
@@ -88,7 +88,7 @@ func c18Loopback(x *explore.Ctx, proxyScheme string, secure bool) {
 	key := func(what string) string {
 		return fmt.Sprintf("C18:loopback-%s:proxy=%s:secure=%v", what, proxyScheme, secure)
 	}
-	socksUserOnly := proxyScheme == "socks5" && o.creds == "user"
+	socksUserOnly := proxyScheme == "socks5" && (o.creds == "user" || o.creds == "user:")
 	if socksUserOnly {
 		return
 	}
@@ -123,7 +123,7 @@ func c18Body(x *explore.Ctx, pi int, secure bool, hi int) {
 	}
 	o := backendOpts{}
 	if proxy != "" {
-		o.creds = []string{"", "user", "user:pa:ss", "u@s er:p w/%2F"}[x.Pick(4, "proxy-credentials")]
+		o.creds = []string{"", "user", "user:pa:ss", "u@s er:p w/%2F", "user:"}[x.Pick(5, "proxy-credentials")]
 	}
 	certKind := 0
 	if secure {
@@ -205,7 +205,7 @@ func c18Body(x *explore.Ctx, pi int, secure bool, hi int) {
 		hostOnly = "[" + hostOnly + "]"
 	}
 	target := hostOnly + ":" + port
-	socksUserOnly := strings.HasPrefix(proxy, "socks5") && o.creds == "user"
+	socksUserOnly := strings.HasPrefix(proxy, "socks5") && (o.creds == "user" || o.creds == "user:")
 	if noTLSConfig {
 		x.Check((conn == nil) == (err != nil), key("conn-xor-err"), "conn=%v err=%v", conn != nil, err)
 		x.Check(!n.Log.Has("backend: PLAINTEXT-ON-TLS-PORT") && !n.Log.Has("proxy: PLAINTEXT-ON-TLS-PORT"), key("plaintext-to-wss"), "TLSClientConfig nil: a TLS endpoint received plaintext first: %v", log)
